@@ -101,3 +101,45 @@ Proof.
   - rewrite lham_app by (rewrite !to_bits_length; reflexivity). rewrite (to_bits_one_bit h _ _ k Hk Ek), lham_refl. reflexivity.
   - rewrite lham_app by (rewrite !to_bits_length; reflexivity). rewrite lham_refl, (to_bits_one_bit h _ _ k Hk Ek). reflexivity.
 Qed.
+
+(* ---- link with the label-table model that is tied to the implementation (Mod/Labels.v qam_patterns) ---- *)
+Lemma nth_flat_map_uniform {A} (f : nat -> nat -> A) k d : forall rows s i j, i < rows -> j < k ->
+  nth (i * k + j) (flat_map (fun i => map (f i) (seq 0 k)) (seq s rows)) d = f (s + i) j.
+Proof.
+  induction rows as [|rows IH]; intros s i j Hi Hj; [lia|]. cbn [seq flat_map].
+  destruct i as [|i].
+  - cbn [Nat.mul Nat.add]. rewrite app_nth1 by (rewrite map_length, seq_length; exact Hj).
+    rewrite (nth_indep _ d (f s 0)) by (rewrite map_length, seq_length; exact Hj).
+    rewrite (map_nth (f s) (seq 0 k) 0 j), seq_nth by exact Hj. rewrite Nat.add_0_r. reflexivity.
+  - rewrite app_nth2 by (rewrite map_length, seq_length; cbn [Nat.mul]; lia).
+    rewrite map_length, seq_length. replace (S i * k + j - k) with (i * k + j) by (cbn [Nat.mul]; lia).
+    rewrite IH by lia. f_equal. lia.
+Qed.
+
+(* with the special cases of binary_to_gray consistent (kernel-evaluated: exceptions_ok), the model's table of a Gray-labelled
+   4^h-QAM lists, at index i * 2^h + j, exactly the label used in qam_gray_neighbours *)
+Theorem qam_patterns_are_labels h i j : exceptions_ok = true -> i < order h -> j < order h ->
+  nth (i * order h + j) (qam_patterns (2 * h) true) [] = qam_label h (N.of_nat i) (N.of_nat j).
+Proof.
+  intros Hex Hi Hj. unfold qam_patterns. replace (Nat.div (2 * h) 2) with h by (rewrite Nat.mul_comm, Nat.div_mul; lia).
+  rewrite (nth_flat_map_uniform (fun i j => to_bits_msb h (b2g (N.of_nat i)) ++ to_bits_msb h (b2g (N.of_nat j))) (order h) [] (order h) 0 i j Hi Hj).
+  cbn [Nat.add]. unfold qam_label. rewrite !(proj1 (exceptions_ok_spec Hex _)). reflexivity.
+Qed.
+
+(* ---- PSK labels: circular neighbours (including the wrap-around) differ in one bit, for every number of bits ---- *)
+Definition psk_label (b : nat) (i : N) : list bool := to_bits_msb b (gray i).
+
+Theorem psk_gray_neighbours b i : (N.succ i < 2 ^ N.of_nat b)%N -> lham (psk_label b i) (psk_label b (N.succ i)) = 1.
+Proof. intro Hi. destruct (gray_step_bit b i Hi) as [k [Hk Ek]]. unfold psk_label. now apply (to_bits_one_bit b _ _ k). Qed.
+
+Theorem psk_gray_wraparound b : lham (psk_label (S b) (2 ^ N.of_nat (S b) - 1)) (psk_label (S b) 0) = 1.
+Proof.
+  unfold psk_label. apply (to_bits_one_bit (S b) _ _ b); [lia|].
+  rewrite Nat2N.inj_succ. apply gray_wrap.
+Qed.
+
+Theorem psk_patterns_are_labels b i : i < order b -> nth i (psk_patterns b true) [] = psk_label b (N.of_nat i).
+Proof.
+  intro Hi. unfold psk_patterns. rewrite (nth_indep _ [] (to_bits_msb b (gray (N.of_nat 0)))) by (rewrite map_length, seq_length; exact Hi).
+  rewrite (map_nth (fun i => to_bits_msb b (gray (N.of_nat i))) (seq 0 (order b)) 0 i), seq_nth by exact Hi. reflexivity.
+Qed.
